@@ -394,6 +394,12 @@ func run(c *simrun.Ctx) *simrun.Violation {
 	nVar := 3 + t.Draw("nvariants", 5)
 	var v0 *result
 	var v0spec *variantSpec
+	type seenFile struct {
+		content string
+		res     *result
+		spec    *variantSpec
+	}
+	firstSeen := map[string]map[string]seenFile{"sim": {}, "native": {}}
 	bySet := map[string]*result{}
 	bySetSpec := map[string]*variantSpec{}
 	for vi := 0; vi < nVar; vi++ {
@@ -508,6 +514,9 @@ func run(c *simrun.Ctx) *simrun.Violation {
 		}
 		if vi == 0 {
 			v0, v0spec = r, vs
+			for _, n := range r.Names {
+				firstSeen["sim"][n] = seenFile{r.Files[n], r, vs}
+			}
 			if r.Class == "response" && len(r.Files) > 0 {
 				st.Add("requests_answered_with_files", 1)
 			}
@@ -549,15 +558,23 @@ func run(c *simrun.Ctx) *simrun.Violation {
 		if r.Class != "response" || v0.Class != "response" {
 			continue
 		}
-		// per-file content against the full, identity variant
+		// per-file content: every file is compared with the first content seen
+		// for that name in the SAME leg (the simulated leg is a test binary built
+		// with go1.26.8, the native leg the plugin binary built with the default
+		// toolchain: text that legitimately depends on how the plugin itself was
+		// built must not be mistaken for dependence on the run)
 		for _, n := range r.Names {
-			want, ok := v0.Files[n]
-			if !ok {
+			if _, ok := v0.Files[n]; !ok {
 				return mk("C13:file-generated-only-in-some-invocations", v0, v0spec, map[string]interface{}{"file": n, "names_a": v0.Names, "names_b": r.Names})
 			}
+			ref, ok := firstSeen[vs.Leg][n]
+			if !ok {
+				firstSeen[vs.Leg][n] = seenFile{r.Files[n], r, vs}
+				continue
+			}
 			st.Add("file_contents_compared", 1)
-			if want != r.Files[n] {
-				return mk("C13:file-content-differs", v0, v0spec, map[string]interface{}{"file": n, "sha_a": hashOf(want), "sha_b": hashOf(r.Files[n]), "diff": firstDiffLines(want, r.Files[n])})
+			if ref.content != r.Files[n] {
+				return mk("C13:file-content-differs", ref.res, ref.spec, map[string]interface{}{"file": n, "sha_a": hashOf(ref.content), "sha_b": hashOf(r.Files[n]), "diff": firstDiffLines(ref.content, r.Files[n])})
 			}
 		}
 		// a requested file that yields output in the full invocation must yield it in a subset too
